@@ -410,4 +410,117 @@ def rank (s : State) : Nat :=
   7 * s.wire.length + 4 * s.inq.length + 2 * s.outq.length + 5 * s.msgs +
   rankR s.r + rankW s.w + rankS s.s + rankP s.p + rankH s.h + rankX s.x
 
+/-! ### `Stop` over a set of connections (server/server.go `Stop`, `serveTCP`, `newClient`)
+
+  Every connection is a copy of the protocol above. `Stop`: `srv.exit()`, close the listeners, then — under `srv.mu` —
+  `Close()` a set of connections and remember their `closed` channels, wait for all of them, `Unload` every plugin,
+  `OnStop`, return. As it is, the set is `srv.clients` (the REGISTERED connections); the repair `stopAll` makes it every
+  connection `newClient` has created and `internalClose` has not finished (findings/c15-f38-stop-tracks-all.diff).
+  The `ctx` timeout of Stop is not modelled (`context.Background()`).
+-/
+
+structure Conn where
+  v5 : Bool
+  st : State
+  awaited : Bool := false      -- its `closed` channel is in Stop's list
+  deriving DecidableEq, Repr
+
+inductive StopPC
+  | idle | closeListeners | closeClients | wait | unload (k : Nat) | onStop | done
+  deriving DecidableEq, Repr
+
+structure SysCfg where
+  fix : Fixes
+  stopAll : Bool
+  plugins : Nat
+  deriving DecidableEq, Repr
+
+structure Sys where
+  conns : List Conn := []
+  listening : Bool := true
+  stop : StopPC := .idle
+  unloads : List Nat := []      -- how often each plugin's Unload ran
+  onStops : Nat := 0
+  deriving DecidableEq, Repr
+
+def Sys.init (cfg : SysCfg) : Sys := { unloads := List.replicate cfg.plugins 0 }
+
+inductive SysAct
+  | accept (v5 : Bool)            -- serveTCP: Accept, newClient, go client.serve()
+  | conn (i : Nat) (a : Act)      -- a step of (or an input to) connection i
+  | stopCall                      -- somebody calls Stop
+  | stopListeners | stopClients | stopWaited | stopUnload | stopUnloaded | stopOnStop
+  deriving DecidableEq, Repr
+
+def SysAct.isEnv : SysAct → Bool
+  | .accept _ | .stopCall => true
+  | .conn _ a => a.isEnv
+  | _ => false
+
+def bump : List Nat → Nat → List Nat
+  | [], _ => []
+  | x :: xs, 0 => (x + 1) :: xs
+  | x :: xs, k + 1 => x :: bump xs k
+
+def Conn.cfg (cfg : SysCfg) (c : Conn) : Cfg := { fix := cfg.fix, v5 := c.v5 }
+
+/-- what `Stop` does to one connection under `srv.mu` -/
+def stopConn (cfg : SysCfg) (c : Conn) : Conn :=
+  if cfg.stopAll || c.st.registered then { c with st := { c.st with srvClosed := true }, awaited := true } else c
+
+def sysStep (cfg : SysCfg) (y : Sys) : SysAct → Option Sys
+  | .accept v5 => if y.listening = true then some { y with conns := y.conns ++ [{ v5 := v5, st := init }] } else none
+  | .conn i a =>
+    match y.conns[i]? with
+    | some c =>
+      match step (c.cfg cfg) c.st a with
+      | some t => some { y with conns := y.conns.set i { c with st := t } }
+      | none => none
+    | none => none
+  | .stopCall => if y.stop = .idle then some { y with stop := .closeListeners } else none
+  | .stopListeners => if y.stop = .closeListeners then some { y with stop := .closeClients, listening := false } else none
+  | .stopClients => if y.stop = .closeClients then some { y with stop := .wait, conns := y.conns.map (stopConn cfg) } else none
+  | .stopWaited =>
+    if y.stop = .wait ∧ y.conns.all (fun c => !c.awaited || c.st.closedCh) = true then some { y with stop := .unload 0 } else none
+  | .stopUnload =>
+    match y.stop with
+    | .unload k => if k < cfg.plugins then some { y with stop := .unload (k + 1), unloads := bump y.unloads k } else none
+    | _ => none
+  | .stopUnloaded =>
+    match y.stop with
+    | .unload k => if cfg.plugins ≤ k then some { y with stop := .onStop } else none
+    | _ => none
+  | .stopOnStop => if y.stop = .onStop then some { y with stop := .done, onStops := y.onStops + 1 } else none
+
+inductive SysReachable (cfg : SysCfg) : Sys → Prop
+  | init : SysReachable cfg (Sys.init cfg)
+  | step (y z : Sys) (a : SysAct) : SysReachable cfg y → sysStep cfg y a = some z → SysReachable cfg z
+
+def sysRun (cfg : SysCfg) (y : Sys) : List SysAct → Option Sys
+  | [] => some y
+  | a :: as => match sysStep cfg y a with
+    | some z => sysRun cfg z as
+    | none => none
+
+def sumRank : List Conn → Nat
+  | [] => 0
+  | c :: cs => rank c.st + sumRank cs
+
+def rankStop (cfg : SysCfg) : StopPC → Nat
+  | .idle => 0
+  | .closeListeners => cfg.plugins + 6
+  | .closeClients => cfg.plugins + 5
+  | .wait => cfg.plugins + 4
+  | .unload k => (cfg.plugins - k) + 2
+  | .onStop => 1
+  | .done => 0
+
+def sysRank (cfg : SysCfg) (y : Sys) : Nat := sumRank y.conns + rankStop cfg y.stop
+
+/-- some goroutine of some connection, or Stop itself, can move -/
+def Sys.canMove (cfg : SysCfg) (y : Sys) : Bool :=
+  y.conns.any (fun c => c.st.canMove (c.cfg cfg)) ||
+  [SysAct.stopListeners, .stopClients, .stopWaited, .stopUnload, .stopUnloaded, .stopOnStop].any
+    (fun a => (sysStep cfg y a).isSome)
+
 end GmqttVerif.Lifecycle
